@@ -300,7 +300,7 @@ func VerifC06_PausePersistsBeforeAnswer() { verifrt.Atomic(verifC10Admin) }
 func VerifC06_DeleteIsPersisted() {
 	o := verifOpts()
 	n := verifShellNSQD(o)
-	verifrt.Preemptions(0)
+	verifrt.Preemptions(1)
 	persisted := "none"
 	verifrt.Stub("(*github.com/nsqio/nsq/nsqd.NSQD).PersistMetadata", func(n *NSQD) error {
 		s := ""
